@@ -114,7 +114,7 @@ class C04(core.Check):
                                        'means:align', 'means:created-zone', 'order:ascending', 'order:descending',
                                        'order:interleaved', 'overlap:non-adjacent', 'expect:REJECT', 'expect:ACCEPT',
                                        'output:bin', 'output:nobin', 'output:both', 'window-excludes-the-overlap',
-                                       'means:macro-with-non-byte-steps', 'means:embedded-string', 'means:zerountil-behind-the-cursor', 'means:include-from-inside-a-zone', 'means:included-file-ends-in-another-zone', 'means:zone-resumed-after-a-backward-origin', 'means:configured-GLOBAL-with-origin-above-its-start', 'embedded-string:two-byte-character', 'embedded-string:three-byte-character', 'embedded-string:cstr-ending-in-its-terminator', 'embedded-string:cstr-ending-in-its-terminator/configured', 'means:global-relative-org', 'unselected-origin-before-bytes']}
+                                       'means:macro-with-non-byte-steps', 'means:embedded-string', 'means:zerountil-behind-the-cursor', 'means:include-from-inside-a-zone', 'means:predefined-block-holding-the-fill-value', 'means:align-inside-a-zone-that-starts-off-the-page-grid', 'means:included-file-ends-in-another-zone', 'means:zone-resumed-after-a-backward-origin', 'means:configured-GLOBAL-with-origin-above-its-start', 'embedded-string:two-byte-character', 'embedded-string:three-byte-character', 'embedded-string:cstr-ending-in-its-terminator', 'embedded-string:cstr-ending-in-its-terminator/configured', 'embedded-string:string-behind-a-wide-directive', 'means:global-relative-org', 'unselected-origin-before-bytes']}
 
     def build(self, rng, items, means_list=None, order=None, mute=None, out_mode=None):
         """items: [(addr, len)]"""
@@ -291,7 +291,11 @@ class C04(core.Check):
                                      ('cstr-ending-in-its-terminator', '.asciiz "\\0"', b'\0\0'),
                                      ('cstr-ending-in-its-terminator/configured', '.cstr "ab\\n"', b'ab\n\n'),
                                      ('cstr-ending-in-its-terminator/configured', '.asciiz "q\\n\\n"', b'q\n\n\n'),
-                                     ('cstr-plain', '.cstr "ab"', b'ab\0')):
+                                     ('cstr-plain', '.cstr "ab"', b'ab\0'),
+                                     # a string behind a wide data directive takes one word of that width per character
+                                     ('string-behind-a-wide-directive', '.2byte "ab"', b'\0a\0b'),
+                                     ('string-behind-a-wide-directive', '.4byte "AB"', b'\0\0\0A\0\0\0B'),
+                                     ('string-behind-a-wide-directive', '.8byte "z"', b'\0\0\0\0\0\0\0z')):
             fn_s, text_s = (fn_t, text_t) if sname.endswith('/configured') else (fn_s0, text_s0)
             sz = len(sbytes)
             for at in range(0, sz + 2):
@@ -406,6 +410,40 @@ class C04(core.Check):
                    'meta': {'kind': kind_, 'M': {str(k): v for k, v in M_.items()}, 'end': end_,
                             'intervals': [[a_, 1] for a_ in sorted(M_)], 'out_mode': 'bin'},
                    'tags': sorted({'means:included-file-ends-in-another-zone', 'expect:' + kind_, 'output:bin', 'order:ascending'})}
+        # .align counts pages from address 0, also inside a zone whose first address is no multiple of the page size
+        for k_, (body, kind_, M_) in enumerate([
+                (['#create_memzone ZQ $0104 $01FF', '.memzone ZQ', '.byte 1', '.align 16', '.byte $A1, $A2', '.org $110', '.byte $E1'], 'REJECT', {0x104: 1, 0x110: 0xA1, 0x111: 0xA2}),
+                (['#create_memzone ZQ $0104 $01FF', '.memzone ZQ', '.byte 1', '.align 16', '.byte $A1, $A2', '.org $114', '.byte $E1'], 'ACCEPT',
+                 {0x104: 1, 0x110: 0xA1, 0x111: 0xA2, 0x114: 0xE1}),
+                (['#create_memzone ZQ $0104 $01FF', '.memzone ZQ', '.byte 1', '.align 16', '.byte $A1, $A2', '.org $112', '.byte $E1'], 'ACCEPT',
+                 {0x104: 1, 0x110: 0xA1, 0x111: 0xA2, 0x112: 0xE1}),
+                (['#create_memzone ZQ $0103 $01FF', '.org 2 "ZQ"', '.byte 1', '.align 8', '.byte $A1', '.org $108', '.byte $E1'], 'REJECT', {0x105: 1, 0x108: 0xA1}),
+                (['#create_memzone ZQ $0103 $01FF', '.org 2 "ZQ"', '.byte 1', '.align 8', '.byte $A1', '.org $10B', '.byte $E1'], 'ACCEPT',
+                 {0x105: 1, 0x108: 0xA1, 0x10B: 0xE1}),
+                (['#create_memzone ZQ $0106 $01FF', '.memzone ZQ', '.align 4', '.byte $A1', '.org $106', '.byte $E1'], 'ACCEPT', {0x108: 0xA1, 0x106: 0xE1}),
+                (['#create_memzone ZQ $0106 $01FF', '.memzone ZQ', '.align 4', '.byte $A1', '.org $108', '.byte $E1'], 'REJECT', {0x108: 0xA1})]):
+            end_ = 0x120
+            fn_a, text_a = isamod.render_isa(gen_prog.layout_isa(16), 'json')
+            yield {'runs': [{'files': {fn_a: text_a, 'p.asm': '\n'.join(body) + '\n'},
+                             'argv': ['compile', '-c', fn_a, 'p.asm', '-o', 'out.bin', '-e', str(end_)],
+                             'probes': ['steps'], 'step_limit': 300000}],
+                   'meta': {'kind': kind_, 'M': {str(k): v for k, v in M_.items()}, 'end': end_,
+                            'intervals': [[a_, 1] for a_ in sorted(M_)], 'out_mode': 'bin'},
+                   'tags': sorted({'means:align-inside-a-zone-that-starts-off-the-page-grid', 'expect:' + kind_, 'output:bin', 'order:descending'})}
+        # a predefined data block occupies its addresses whatever its value is - also when that is the value gaps are filled with
+        for val_, fill_ in ((0, None), (0x100, None), (0x5A, None)):
+            isa_p = gen_prog.layout_isa(16, data=[{'name': 'pd_blk', 'address': 0x40, 'value': val_, 'size': 4}])
+            fn_p, text_p = isamod.render_isa(isa_p, 'json')
+            for body, kind_, extra in ((['.byte 1', '.org $41', '.byte $E1'], 'REJECT', {}), (['.byte 1', '.org $43', '.byte $E1'], 'REJECT', {}),
+                                       (['.byte 1', '.org $3F', '.byte $E1, $E2'], 'REJECT', {}), (['.byte 1', '.org $44', '.byte $E1'], 'ACCEPT', {0x44: 0xE1}),
+                                       (['.byte 1', '.org $3F', '.byte $E1'], 'ACCEPT', {0x3F: 0xE1})):
+                M_ = {0: 1, **{0x40 + j_: val_ & 0xFF for j_ in range(4)}, **extra}
+                end_ = 0x50
+                argv_ = ['compile', '-c', fn_p, 'p.asm', '-o', 'out.bin', '-e', str(end_)] + (['-f', str(fill_)] if fill_ is not None else [])
+                yield {'runs': [{'files': {fn_p: text_p, 'p.asm': '\n'.join(body) + '\n'}, 'argv': argv_, 'probes': ['steps'], 'step_limit': 300000}],
+                       'meta': {'kind': kind_, 'M': {str(k): v for k, v in M_.items()}, 'end': end_, 'fill': fill_ or 0,
+                                'intervals': [[a_, 1] for a_ in sorted(M_)], 'out_mode': 'bin'},
+                       'tags': sorted({'means:predefined-block-holding-the-fill-value', 'expect:' + kind_, 'output:bin', 'order:ascending'})}
         # GLOBAL defined by the configuration together with a default origin above its start: the first bytes go to the origin
         for gs_, org_ in ((0x100, 0x120), (0x10, 0x18), (0, 0x40)):
             isa_o = gen_prog.layout_isa(16, global_zone=(gs_, 0x7FFF), origin=org_)
